@@ -67,15 +67,24 @@ Fixpoint first_eligible (self : bytes) (unhealthy : list bytes) (r : list bytes)
   | n :: tl => if bytes_eqb n self || negb (mem_s n unhealthy) then Some n
                else first_eligible self unhealthy tl
   end.
+(* the same scan without the self-preference (used by the ghost marker and by the proofs) *)
+Fixpoint first_healthy (un : list bytes) (r : list bytes) : option bytes :=
+  match r with
+  | [] => None
+  | n :: tl => if negb (mem_s n un) then Some n else first_healthy un tl
+  end.
 Definition healthy_owner (self : bytes) (unhealthy : list bytes) (key : bytes) (nodes : list bytes) : bytes :=
   match first_eligible self unhealthy (ranked key nodes) with Some n => n | None => self end.
 
 (* ---- stateful part: several nodes, each with its own configured peer list ---- *)
-Record node := { self : bytes; peers : list bytes; unhealthy : list bytes }.
+Record node := { self : bytes; cfg : list bytes; peers : list bytes; unhealthy : list bytes }.
 
-Definition new_node (id : bytes) (cfg : list bytes) : node :=
-  {| self := id;
-     peers := sort_s (if mem_s id cfg then cfg else cfg ++ [id]);
+Definition new_node (id : bytes) (cfg0 : list bytes) : node :=
+  (* p.peers aliases cfg.Peers: when the node id is already in the list nothing is appended and
+     sort.Strings sorts that same backing array, so the address list is sorted too; otherwise append
+     reallocates (len = cap) and the configured order survives *)
+  {| self := id; cfg := if mem_s id cfg0 then sort_s cfg0 else cfg0;
+     peers := sort_s (if mem_s id cfg0 then cfg0 else cfg0 ++ [id]);
      unhealthy := [] |}.
 
 Fixpoint remove_first (x : bytes) (l : list bytes) : list bytes :=
@@ -91,13 +100,15 @@ Inductive op :=
 | GetOwner (n : N) (k : bytes)
 | IsLocal (n : N) (k : bytes)
 | Ranked (n : N) (k : bytes)
-| HealthyOwner (n : N) (k : bytes).
+| HealthyOwner (n : N) (k : bytes)
+| Alloc (n : N) (k : bytes).      (* PeerPool.Allocate entering at node n; observable: NodeID that served it *)
 
 Inductive out :=
 | ONone
 | OStr (s : bytes)
 | OBool (b : bool)
-| OList (l : list bytes).
+| OList (l : list bytes)
+| OErr.
 
 Fixpoint list_bytes_eqb (a b : list bytes) : bool :=
   match a, b with
@@ -112,6 +123,7 @@ Definition out_eqb (a b : out) : bool :=
   | OStr x, OStr y => bytes_eqb x y
   | OBool x, OBool y => Bool.eqb x y
   | OList x, OList y => list_bytes_eqb x y
+  | OErr, OErr => true
   | _, _ => false
   end.
 
@@ -121,19 +133,26 @@ Definition upd (s : state) (n : N) (f : node -> node) : state :=
   map (fun p => if fst p =? n then f (snd p) else snd p) (combine (map N.of_nat (seq 0 (length s))) s).
 
 Definition getn (s : state) (n : N) : node :=
-  nth (N.to_nat n) s {| self := []; peers := []; unhealthy := [] |}.
+  nth (N.to_nat n) s {| self := []; cfg := []; peers := []; unhealthy := [] |}.
+
+(* getPeerAddr: the configured (unsorted, never updated) peer list decides the address *)
+Definition peer_addr (nd : node) (o : bytes) : bytes :=
+  match find (fun p => bytes_eqb p o || bytes_eqb p (o ++ [58; 56; 48; 56; 49])) (cfg nd) with
+  | Some p => p
+  | None => o
+  end.
 
 Definition step (s : state) (o : op) : state * out * list N :=
   match o with
   | AddPeer n p =>
       (upd s n (fun nd => if mem_s p (peers nd) then nd
-                          else {| self := self nd; peers := sort_s (peers nd ++ [p]); unhealthy := unhealthy nd |}),
+                          else {| self := self nd; cfg := cfg nd; peers := sort_s (peers nd ++ [p]); unhealthy := unhealthy nd |}),
        ONone, [])
   | RemovePeer n p =>
-      (upd s n (fun nd => {| self := self nd; peers := remove_first p (peers nd); unhealthy := unhealthy nd |}),
+      (upd s n (fun nd => {| self := self nd; cfg := cfg nd; peers := remove_first p (peers nd); unhealthy := unhealthy nd |}),
        ONone, [])
   | SetHealth n p h =>
-      (upd s n (fun nd => {| self := self nd; peers := peers nd;
+      (upd s n (fun nd => {| self := self nd; cfg := cfg nd; peers := peers nd;
                              unhealthy := if h then filter (fun q => negb (bytes_eqb q p)) (unhealthy nd)
                                           else p :: filter (fun q => negb (bytes_eqb q p)) (unhealthy nd) |}),
        ONone, [])
@@ -145,6 +164,18 @@ Definition step (s : state) (o : op) : state * out * list N :=
       let r := healthy_owner (self nd) (unhealthy nd) k (peers nd) in
       (* ghost marker 1701 (D17a): this node is in the health vector's unhealthy set, yet elects
          itself where a node without the self-preference would elect another peer *)
-      let r0 := healthy_owner [] (unhealthy nd) k (peers nd) in
+      let r0 := match first_healthy (unhealthy nd) (ranked k (peers nd)) with Some x => x | None => self nd end in
       (s, OStr r, if mem_s (self nd) (unhealthy nd) && negb (bytes_eqb r r0) then [1701] else [])
+  | Alloc n k =>
+      let nd := getn s n in
+      let r := healthy_owner (self nd) (unhealthy nd) k (peers nd) in
+      let r0 := match first_healthy (unhealthy nd) (ranked k (peers nd)) with Some x => x | None => self nd end in
+      let mk := if mem_s (self nd) (unhealthy nd) && negb (bytes_eqb r r0) then [1701] else [] in
+      if bytes_eqb r (self nd) then (s, OStr r, mk)
+      else (* forwarded: the addressed peer allocates locally without re-checking ownership *)
+        match find (fun m => bytes_eqb (self m) (peer_addr nd r)) s with
+        | Some m => (* ghost marker 1702 (D17b): address lookup conflated owner X with a peer "X:8081" *)
+            (s, OStr (self m), if bytes_eqb (self m) r then mk else 1702 :: mk)
+        | None => (s, OErr, mk)
+        end
   end.
